@@ -80,18 +80,30 @@ pub fn replay(args: &[String]) {
                 }
             }
         }
-        // the same history lived 4000 units away from the origin: variances and R-hat do not depend on the location
-        // (f32 trackers: compared at the accuracy a running f32 mean at that location allows)
+        // the same history lived away from the origin: variances and R-hat do not depend on the location
+        // (4000 as f32 values; 1e9 as f64 / i64 values -- the element type is the caller's, the narrowing to f32 the tracker's)
+        for big in [false, true] {
+        let offs: i64 = if big { 1_000_000_000 } else { 4000 };
         let shifted = catch(|| {
-            let mut trackers: Vec<ChainTracker> = (0..nc).map(|_| ChainTracker::new(np, &vec![4000i32; np])).collect();
+            let mut trackers: Vec<ChainTracker> = (0..nc).map(|_| ChainTracker::new(np, &vec![offs; np])).collect();
             let mut multi = MultiChainTracker::new(nc, np);
             for round in &hist {
                 for (ci, st) in round.iter().enumerate() {
-                    let x: Vec<f64> = st.iter().map(|v| (*v + 4000) as f64).collect();
-                    trackers[ci].step(&x).unwrap();
+                    if big && ci % 2 == 1 {
+                        let x: Vec<i64> = st.iter().map(|v| *v + offs).collect();
+                        trackers[ci].step(&x).unwrap();
+                    } else {
+                        let x: Vec<f64> = st.iter().map(|v| (*v + offs) as f64).collect();
+                        trackers[ci].step(&x).unwrap();
+                    }
                 }
-                let flat: Vec<f32> = round.iter().flatten().map(|v| (*v + 4000) as f32).collect();
-                multi.step(&flat).unwrap();
+                if big {
+                    let flat: Vec<f64> = round.iter().flatten().map(|v| (*v + offs) as f64).collect();
+                    multi.step(&flat).unwrap();
+                } else {
+                    let flat: Vec<f32> = round.iter().flatten().map(|v| (*v + offs) as f32).collect();
+                    multi.step(&flat).unwrap();
+                }
             }
             let stats: Vec<ChainStats> = trackers.iter().map(|t| t.stats()).collect();
             let refs: Vec<&ChainStats> = stats.iter().collect();
@@ -99,13 +111,13 @@ pub fn replay(args: &[String]) {
         });
         evals += 1;
         match shifted {
-            Err(e) => why.push(format!("shifted by 4000: panic {e}")),
+            Err(e) => why.push(format!("shifted by {offs}: panic {e}")),
             Ok((stats, cr, mr)) => {
                 for ci in 0..nc {
                     for k in 0..np {
                         let var = (nf * q[ci][k] as f64 - (s[ci][k] * s[ci][k]) as f64) / (nf * (nf - 1.0));
                         if !((stats[ci].sm2[k] as f64 - var).abs() <= 2e-3) {
-                            why.push(format!("shifted by 4000: chain {ci} param {k}: variance {} expected {var}", stats[ci].sm2[k]));
+                            why.push(format!("shifted by {offs}: chain {ci} param {k}: variance {} expected {var}", stats[ci].sm2[k]));
                         }
                     }
                 }
@@ -113,14 +125,20 @@ pub fn replay(args: &[String]) {
                     if c["wn"][k].as_i64().unwrap() > 0 {
                         let e = c["rn"][k].as_i64().unwrap() as f64 / c["rd"][k].as_i64().unwrap() as f64;
                         for (name, v) in [("collect_rhat", cr[k]), ("MultiChainTracker::rhat", mr[k])] {
+                            // ChainStats carries its means as f32 (public field): at 1e9 they cannot tell the chains apart,
+                            // whatever the tracker does -- collect_rhat is compared at 4000 only
+                            if big && name == "collect_rhat" {
+                                continue;
+                            }
                             let r2 = (v as f64).powi(2);
                             if !((r2 - e).abs() <= 4e-3 * e.max(1.0)) {
-                                why.push(format!("shifted by 4000: param {k}: {name} = {v} (squared {r2}), expected squared {e}"));
+                                why.push(format!("shifted by {offs}: param {k}: {name} = {v} (squared {r2}), expected squared {e}"));
                             }
                         }
                     }
                 }
             }
+        }
         }
         why.truncate(6);
         if !why.is_empty() && bad.len() < 20 {
@@ -174,7 +192,9 @@ pub fn record(args: &[String]) {
         let np = 1 + (splitmix(&mut s) % 4) as usize + if c == 1 { 4 } else { 0 };
         let stick = [2u64, 5, 20, 1][(c % 4) as usize]; // how often the state stays (rejections)
         // every fourth chain (the f32 one among the long ones, c = 2; c = 6, ...) lives far from the origin
-        let off: i64 = if c % 4 == 2 { 4000 } else { 0 };
+        // (c % 8 = 4: an f64 chain, c % 8 = 5: an i32 chain, both at 1e9 -- the spacing of f32 numbers there is 64, so the
+        // spread survives only if the location is removed before the values are narrowed to f32)
+        let off: i64 = match c % 8 { 2 | 6 => 4000, 4 | 5 => 1_000_000_000, _ => 0 };
         // the initial state is NOT a fed draw: every third chain starts far away from everything it is fed afterwards
         let far = if c % 3 == 2 { 3000 + 500 * c as i64 } else { 0 };
         let x0: Vec<i64> = (0..np).map(|_| (splitmix(&mut s) % 8) as i64 + far).collect();
